@@ -17,7 +17,15 @@ from vlib import common, zw, engine, zgen
 CORPUS = os.path.join(common.VERIF, "corpus", "C01.txt")
 
 
-from vlib.enginecheck import compare, shrink, disagrees, spec_agree, order_fixed  # noqa: E402,F401
+from vlib.enginecheck import compare as _compare, shrink, disagrees, spec_agree, order_fixed  # noqa: E402,F401
+
+
+def compare(ctx, queries, stats, kind):
+    """once six violations are on record the remaining batches would only add time"""
+    if len(ctx.violations) >= 6:
+        stats["skipped_after_violations"] = stats.get("skipped_after_violations", 0) + len(queries)
+        return
+    _compare(ctx, queries, stats, kind)
 
 
 def run(ctx):
@@ -73,6 +81,7 @@ def run(ctx):
         "results_per_program_histogram": stats["results_hist"],
         "generator_choices": dict(sorted(gstats.items())),
         "disagreements": stats["disagreements"],
+        "programs_skipped_after_six_violations": stats.get("skipped_after_violations", 0),
         "spec_comparison": {k[5:]: v for k, v in stats.items() if k.startswith("spec:")},
     })
     return ctx.finish(oblig)
